@@ -20,7 +20,7 @@ def rand_f32(rng, mode):
             continue
         return b
 
-NAMES = ["chr1", "chr10", "chr2", "chrX", "a", "chrUn_gl000220", "chr1_random", "B", "chrM", "échr"]
+NAMES = ["chr1", "chr10", "chr2", "chrX", "a", "chrUn_gl000220", "chr1_random", "B", "chrM", "échr", "chrm"]   # chrM / chrm differ in letter case only
 
 def chrom_set(rng, sort_all, nmax=6):
     n = rng.choice([1, 1, 2, 2, 3, 4, nmax])
